@@ -15,11 +15,21 @@
 //!   (case zrt k xDATA (encs xE...))                 the same for flate2's zlib decoder: the spec's stored-block stream, flate2's own
 //!                                                    output at levels 0/1/6/9, Python zlib's
 //!   (case zdec xE)                                  flate2's zlib decoder on an arbitrary stream
+//!   (case big <kind> ...)                           large, highly compressible data (deflate reaches about 1000 : 1 on runs of equal bytes, LZW
+//!                                                    several hundred : 1): <kind> = stream | doc as above, or
+//!                                                      zrtn <DATA> (encs xE...)      flate2's decoder on every E, all must give DATA
+//!                                                      lzwrtn ec <DATA> (encs xE...) weezl's decoder, the same
+//!                                                    where every byte string may be a FORM: xHEX | (rep FORM n) = n copies | (cat FORM ...);
+//!                                                    forms are expanded before the case is run (model: RunC09.v bytes_form) and byte strings
+//!                                                    longer than 16384 in the result are printed run by run, (rl LENGTH item ...), see `rle`;
+//!                                                    <kind> = echo FORM: just that, the glue against itself
+//!   a doc case may carry a fourth item (plains ((id gen) DATA) ...): after compress + decompress these objects must be streams
+//!                                                    without Filter whose content is DATA
 //! <expect> = (plain xHEX) | (plainonly xHEX) | (none).  <orc> is only read by the model (answers of flate2 / weezl).
 //!
 //! Oracle mode (`c09 --oracle`): one query per line, `(f xIN)` zlib-decode, `(l0 xIN)` / `(l1 xIN)` LZW decode
 //! without / with early change, `(z xIN)` zlib-encode at best compression (`(z0 xIN)`, `(z1 xIN)`, `(z6 xIN)`: at level 0 / 1 / 6), `(e0 xIN)` / `(e1 xIN)` LZW encode with
-//! weezl's own encoder without / with early change (a second, independent producer of LZW streams); prints `xOUT`.  The calls repeat the
+//! weezl's own encoder without / with early change (a second, independent producer of LZW streams); prints `xOUT`.  IN may be a FORM.  The calls repeat the
 //! call protocol of lopdf's wrappers so that partial output on damaged data is the same.  The generator uses
 //! it for answers it cannot compute itself (flate2's compressed bytes, damaged streams).
 use lvh::conv::*;
@@ -293,6 +303,10 @@ fn obytes(r: &Option<Vec<u8>>) -> Sx {
 
 /// (lzwrt | zrt): decode every given stream with the crate, all must give the data
 fn codec_rt(tag: &str, data: &[u8], encs: &[Sx], decode: &dyn Fn(&[u8]) -> Option<Vec<u8>>) -> (Sx, String) {
+    codec_rt_echo(tag, data, encs, decode, true)
+}
+
+fn codec_rt_echo(tag: &str, data: &[u8], encs: &[Sx], decode: &dyn Fn(&[u8]) -> Option<Vec<u8>>, echo_first: bool) -> (Sx, String) {
     let mut out = vec![];
     let mut fails = vec![];
     for (i, e) in encs.iter().enumerate() {
@@ -300,7 +314,7 @@ fn codec_rt(tag: &str, data: &[u8], encs: &[Sx], decode: &dyn Fn(&[u8]) -> Optio
             Some(e) => e,
             None => return (Sx::id("badcase"), "skip".into()),
         };
-        if i == 0 {
+        if i == 0 && echo_first {
             out.push(Sx::bytes(&e));
         }
         let r = decode(&e);
@@ -313,6 +327,158 @@ fn codec_rt(tag: &str, data: &[u8], encs: &[Sx], decode: &dyn Fn(&[u8]) -> Optio
     }
     let verdict = if fails.is_empty() { "ok".to_string() } else { format!("FAIL {}: {}", tag, fails.join("; ")) };
     (Sx::tagged(tag, out), verdict)
+}
+
+
+// ---- large, highly compressible data: compact forms in, run-length rendering out (see RunC09.v) ----
+const BIG_ATOM: usize = 16384;
+const BIG_LIMIT: usize = 1 << 28;
+
+fn hex_atom(b: &[u8]) -> Sx {
+    const H: &[u8; 16] = b"0123456789abcdef";
+    let mut v = Vec::with_capacity(1 + 2 * b.len());
+    v.push(b'x');
+    for c in b {
+        v.push(H[(c >> 4) as usize]);
+        v.push(H[(c & 15) as usize]);
+    }
+    Sx::A(v)
+}
+
+/// FORM ::= xHEX | (rep FORM n) | (cat FORM ...)
+fn form_bytes(x: &Sx) -> Option<Vec<u8>> {
+    match x {
+        Sx::A(_) => x.as_bytes(),
+        Sx::L(_) => match x.tag()? {
+            "rep" => {
+                let a = x.args();
+                if a.len() != 2 {
+                    return None;
+                }
+                let p = form_bytes(&a[0])?;
+                let n = a[1].as_u64()? as usize;
+                if p.len().checked_mul(n)? > BIG_LIMIT {
+                    return None;
+                }
+                Some(p.repeat(n))
+            }
+            "cat" => {
+                let mut o = vec![];
+                for y in x.args() {
+                    o.extend(form_bytes(y)?);
+                    if o.len() > BIG_LIMIT {
+                        return None;
+                    }
+                }
+                Some(o)
+            }
+            _ => None,
+        },
+    }
+}
+
+/// every form inside a case replaced by the byte string it denotes
+fn expand(x: &Sx) -> Sx {
+    match x {
+        Sx::L(l) => match x.tag() {
+            Some("rep") | Some("cat") => match form_bytes(x) {
+                Some(b) => hex_atom(&b),
+                None => x.clone(),
+            },
+            _ => Sx::L(l.iter().map(expand).collect()),
+        },
+        a => a.clone(),
+    }
+}
+
+const LAGS: [usize; 6] = [1, 2, 3, 4, 6, 8];
+const MINSEG: usize = 64;
+
+/// (rl LENGTH item ...): item = xHEX literal bytes | (xPATTERN total) a stretch of `total` bytes with period |PATTERN|
+/// (b[j] == b[j - p] for as long as it holds, first lag p of LAGS that gives at least MINSEG bytes); the same algorithm as
+/// RunC09.v rle_sx
+fn rle(b: &[u8]) -> Sx {
+    let n = b.len();
+    let mut out = vec![Sx::id("rl"), Sx::num(n)];
+    let mut i = 0;
+    let mut lit = 0;
+    while i < n {
+        let mut found = None;
+        for &p in LAGS.iter() {
+            let mut j = i + p;
+            if j > n {
+                continue;
+            }
+            while j < n && b[j] == b[j - p] {
+                j += 1;
+            }
+            if j - i >= MINSEG {
+                found = Some((p, j - i));
+                break;
+            }
+        }
+        match found {
+            Some((p, total)) => {
+                if lit < i {
+                    out.push(hex_atom(&b[lit..i]));
+                }
+                out.push(Sx::L(vec![hex_atom(&b[i..i + p]), Sx::num(total)]));
+                i += total;
+                lit = i;
+            }
+            None => i += 1,
+        }
+    }
+    if lit < n {
+        out.push(hex_atom(&b[lit..n]));
+    }
+    Sx::L(out)
+}
+
+/// byte strings longer than BIG_ATOM printed run by run
+fn digest(x: &Sx) -> Sx {
+    match x {
+        Sx::A(a) if a.first() == Some(&b'x') && a.len() > 1 + 2 * BIG_ATOM => match x.as_bytes() {
+            Some(b) => rle(&b),
+            None => x.clone(),
+        },
+        Sx::L(l) => Sx::L(l.iter().map(digest).collect()),
+        a => a.clone(),
+    }
+}
+
+fn big_case(a: &[Sx]) -> (Sx, String) {
+    let kind = match a.first().and_then(|k| k.as_atom()) {
+        Some(k) => String::from_utf8_lossy(k).to_string(),
+        None => return (Sx::id("badcase"), "skip".into()),
+    };
+    let args: Vec<Sx> = a[1..].iter().map(expand).collect();
+    if kind == "echo" {
+        // the glue itself: a form expanded and rendered by both sides
+        return match args.first().and_then(|v| v.as_bytes()) {
+            Some(d) => (Sx::tagged("big", vec![Sx::tagged("echo", vec![rle(&d)])]), "ok".into()),
+            None => (Sx::id("badcase"), "skip".into()),
+        };
+    }
+    let (r, v) = match kind.as_str() {
+        "stream" | "doc" => run_case(&kind, &args),
+        "zrtn" => match args.first().and_then(|v| v.as_bytes()) {
+            Some(data) if args.len() == 2 => {
+                let encs = args[1].args().to_vec();
+                codec_rt_echo("zrtn", &data, &encs, &|e| flate2_decode(e), false)
+            }
+            _ => (Sx::id("badcase"), "skip".into()),
+        },
+        "lzwrtn" => match (args.first().and_then(|v| v.as_u64()), args.get(1).and_then(|v| v.as_bytes())) {
+            (Some(ec), Some(data)) if args.len() == 3 => {
+                let encs = args[2].args().to_vec();
+                codec_rt_echo("lzwrtn", &data, &encs, &|e| weezl_decode(ec != 0, e), false)
+            }
+            _ => (Sx::id("badcase"), "skip".into()),
+        },
+        _ => (Sx::id("badcase"), "skip".into()),
+    };
+    (Sx::tagged("big", vec![digest(&r)]), v)
 }
 
 fn paeth_spec(a: u8, b: u8, c: u8) -> u8 {
@@ -341,8 +507,22 @@ fn main() {
             Some(k) => String::from_utf8_lossy(k).to_string(),
             None => return (Sx::id("badcase"), "skip".into()),
         };
-        let a = &a[1..];
-        match kind.as_str() {
+        run_case(&kind, &a[1..])
+    });
+}
+
+fn run_case(kind: &str, a: &[Sx]) -> (Sx, String) {
+    {
+        match kind {
+            "big" => big_case(a),
+            // the same on the implementation only (the runner answers model-skipped; the direct verdict decides)
+            "bigd" => match big_case(a) {
+                (Sx::L(mut l), v) if !l.is_empty() => {
+                    l[0] = Sx::id("bigd");
+                    (Sx::L(l), v)
+                }
+                r => r,
+            },
             "stream" => stream_case(a),
             "row" => {
                 let (t, bpp, prev, cur) = match (
@@ -498,6 +678,32 @@ fn main() {
                         }
                     }
                 }
+                // (plains ((id gen) DATA) ...): what these objects must hold after compress + decompress
+                if let Some(pl) = a.get(3) {
+                    for e in pl.args() {
+                        let (id, want) = match (e.as_list().and_then(|l| l.first()).and_then(oid_of_sx), e.as_list().and_then(|l| l.get(1)).and_then(|b| b.as_bytes())) {
+                            (Some(i), Some(w)) => (i, w),
+                            _ => return (Sx::id("badcase"), "skip".into()),
+                        };
+                        match doc.objects.get(&id) {
+                            Some(Object::Stream(s)) => {
+                                if s.dict.has(b"Filter") {
+                                    fails.push(format!("{:?}: still filtered after Document::decompress (a legal stream was not decoded)", id));
+                                } else if s.content != want {
+                                    fails.push(format!(
+                                        "{:?}: after Document::compress + decompress the content ({} bytes) is not the original ({} bytes)",
+                                        id,
+                                        s.content.len(),
+                                        want.len()
+                                    ));
+                                } else if !length_ok(s) {
+                                    fails.push(format!("{:?}: Length wrong after compress + decompress", id));
+                                }
+                            }
+                            _ => fails.push(format!("{:?}: stream lost", id)),
+                        }
+                    }
+                }
                 let verdict = if fails.is_empty() { "ok".to_string() } else { format!("FAIL {}", fails.join("; ")) };
                 (Sx::tagged("doc2", vec![c, d]), verdict)
             }
@@ -527,7 +733,7 @@ fn main() {
             },
             _ => (Sx::id("badcase"), "skip".into()),
         }
-    });
+    }
 }
 
 fn oracle() {
@@ -544,7 +750,7 @@ fn oracle() {
                 continue;
             }
         };
-        let input = q.args().first().and_then(|x| x.as_bytes()).unwrap_or_default();
+        let input = q.args().first().and_then(form_bytes).unwrap_or_default();
         let ans: Vec<u8> = match q.tag() {
             Some("f") => {
                 let mut o = Vec::with_capacity(input.len() * 2);
